@@ -370,6 +370,10 @@ def scripted(cfg) -> List[Tuple]:
                 (("tick",),) * (pth + dly + 2 * max(itv, 1) + 2) + (("read",),))
     runs.append((both, ("press", "KEY_Q")) + (("tick",),) * (pth + dly + 1) + (none,) + (("tick",), ("read",)) * (rth + 1) + (both,) +
                 (("tick",), ("read",)) * (pth + 2))
+    # several strobe dropouts, each shorter than the release interval, while the key stays held: no release, no second press
+    if rth >= 2:
+        short = (none,) + (("tick",),) * (rth - 1) + (both,) + (("tick",), ("read",))
+        runs.append((both, ("press", "KEY_Q")) + (("tick",),) * (pth + 1) + short * (rth + 2) + (("tick",), ("read",)) * 2)
     # FIFO overflow by injection burst
     burst = tuple(("inject", k, r) for _ in range(3) for k in ("KEY_Q", "KEY_E") for r in (0, 1))
     runs.append((both,) + burst + (("tick",), ("read",)))
